@@ -72,7 +72,7 @@ Definition S_symm_run_invariant : Prop :=
     vertex, radius and a radial vertex attaining it.  The hypothesis "radius <= n/2" is what
     the initial value n/2 + 1 of the bound presupposes; it holds for the radial set
     [run_symm] always uses, the vertices of a largest connected component (a connected graph
-    on m nodes has radius <= m/2) -- that graph-theoretic fact is NOT proved here. *)
+    on m nodes has radius <= m/2) -- that graph-theoretic fact is proved in EssRadiusFacts.v (S_component_radius_half), which gives the hypothesis-free versions S_symm_*_closed and S_symm_machine_exact_default. *)
 Definition S_symm_exit_exact : Prop :=
   forall g radial l x, wf_graph g = true -> 0 < length g -> symmetric_graph g ->
   inv_sym g radial x ->
